@@ -123,6 +123,9 @@ class ReadTagFragmentedResponsePacket(ReadTagResponsePacket):
 
     def _parse_reply(self):
         super()._parse_reply(dont_parse=True)
+        if self.data is None:  # reply without service data: the error is already recorded
+            self.value_bytes = b""
+            return
         if self.data[:2] == STRUCTURE_READ_REPLY:
             self.value_bytes = self.data[4:]
             self._data_type = self.data[:4]
